@@ -27,6 +27,7 @@ M = [
  ("m27_suback_failure_mask", D, "        self.granted = [ (byte & 0x7F, byte & 0x80 == 0x80) ", "        self.granted = [ (byte & 0x03, byte & 0x80 == 0x80) ", "C01,C02"),
  ("m28_will_qos_shift", D, "(self.willQoS << 3)", "(self.willQoS << 2)", "C01,C02"),
  ("m29_varint_boundary", D, "        if value > 0:\n            digit |= 128", "        if value > 1:\n            digit |= 128", "C01,C02"),
+ ("m31_ping_deadline_survives_loss", B, "        if self._pingReq.alarm:\n            self._pingReq.alarm.cancel()\n            self._pingReq.alarm = None\n\n    # --------------\n    # Helper methods", "        self._pingReq.alarm = None\n\n    # --------------\n    # Helper methods", "C15,C13"),
  ("m30_qos2_delivered_at_publish_too", P, "            self.factory.windowPubRx[self.addr][response.msgId] = response\n", "            self.factory.windowPubRx[self.addr][response.msgId] = response\n            self._deliver(response)\n", "C06"),
 ]
 def main():
